@@ -17,7 +17,8 @@ RULE = ('case = (API in {pmap, piter, piter_fn, piter_multiplex, MultiplexIterat
         'a shim executor); oracle: on exhaustion multiset(outputs) == multiset(sequential evaluation) and the generators\' return '
         'values are collected; on early stop / failure a duplicate-free sub-multiset, the consumer sees the failure; afterwards '
         'every submitted task has finished, no virtual thread is blocked and MultiplexIterator has shut its pool down; non-trivial '
-        '= parallelism >= 2 (or >= 2 inputs) and >= 1 preemption; distinct = distinct canonical case JSON')
+        '= parallelism >= 2 (or >= 2 inputs) and >= 1 preemption; distinct = distinct canonical case JSON'
+        '; also: an in-process MultiplexIterator over a thread-fed queue, pools with fewer threads than sources, 257..300 sources, return values of many kinds')
 ASSUMPTIONS = [
     'same scheduler trusted base as C04; the shim ThreadPoolExecutor starts a worker per submitted task up to max_workers',
 ]
